@@ -304,7 +304,7 @@ ELEMENT_TYPES = [
 
 
 @st.composite
-def nested_column(draw, name, layouts=("3level",), allow_map=True):
+def nested_column(draw, name, layouts=("3level",), allow_map=True, force_outer_opt=False):
     from vf.refpq import dremel
     is_map = allow_map and draw(st.integers(0, 3)) == 0
     ekey, enode, ekind = draw(st.sampled_from(ELEMENT_TYPES))
@@ -312,7 +312,7 @@ def nested_column(draw, name, layouts=("3level",), allow_map=True):
     pool = draw(st.lists(value(ekind, narrow), min_size=1, max_size=8))
     if ekind == "f64":
         pool = [v for v in pool if v == v] or [1.5]
-    outer_opt = draw(st.booleans())
+    outer_opt = True if force_outer_opt else draw(st.booleans())
     inner_opt = draw(st.booleans())
     if is_map:
         kkey, knode, kkind = draw(st.sampled_from([t for t in ELEMENT_TYPES if t[0] in ("i32", "i64", "utf8")]))
@@ -330,11 +330,11 @@ def nested_column(draw, name, layouts=("3level",), allow_map=True):
 
 
 @st.composite
-def nested_rows(draw, col, n):
+def nested_rows(draw, col, n, null_heavy=False):
     rows = []
     for _ in range(n):
         k = draw(st.integers(0, 9))
-        if k == 0 and col["outer_opt"]:
+        if (k == 0 or (null_heavy and k >= 7)) and col["outer_opt"]:
             rows.append(None)
             continue
         ln = 0 if k == 1 else draw(st.integers(0, 6))
@@ -359,26 +359,33 @@ def _entries(col, rows):
 
 
 @st.composite
-def nested_plan(draw, thorough=False, layouts=("3level",), allow_v2=True, allow_map=True):
+def nested_plan(draw, thorough=False, layouts=("3level",), allow_v2=True, allow_map=True, v2_working=False):
+    """v2_working: aim at the v2 layout the library does assemble - every page DATA_PAGE_V2, dictionary-encoded and
+    holding nulls, outer level OPTIONAL (whether a drawn case really is inside that region is decided from the file)."""
     ncols = draw(st.sampled_from([1, 1, 2]))
-    cols = [draw(nested_column("n%d" % i, layouts=layouts, allow_map=allow_map)) for i in range(ncols)]
+    cols = [draw(nested_column("n%d" % i, layouts=layouts, allow_map=allow_map, force_outer_opt=v2_working)) for i in range(ncols)]
+    if v2_working:
+        cols = [c for c in cols if c["ekind"] != "bool"] or [draw(nested_column("n0", layouts=layouts, allow_map=False, force_outer_opt=True)
+                                                                   .filter(lambda c: c["ekind"] != "bool"))]
     n_groups = draw(st.sampled_from([1, 1, 2, 3]))
     rgs = []
     for g in range(n_groups):
         n = draw(st.one_of(st.integers(0, 12), st.sampled_from([0, 1, 8, 9, 30 if not thorough else 100])))
         data, chunks = {}, {}
         for c in cols:
-            rows = draw(nested_rows(c, n))
+            rows = draw(nested_rows(c, n, null_heavy=v2_working))
             name = c["node"]["name"]
             data[name] = rows
             total = _entries(c, rows)
             version = draw(st.sampled_from([1, 1, 2])) if allow_v2 else 1
             enc = draw(st.sampled_from(["PLAIN", "PLAIN", "RLE_DICTIONARY", "PLAIN_DICTIONARY"]))
+            if v2_working:
+                version, enc = 2, draw(st.sampled_from(["RLE_DICTIONARY", "PLAIN_DICTIONARY"]))
             if c["ekind"] == "bool":
                 enc = "PLAIN"     # dictionary-encoded booleans: legal, but no mainstream writer produces them
             leafpaths = _leaf_paths(c["node"])
             for lp in leafpaths:
-                npages = draw(st.sampled_from([1, 1, 2, 3, 5]))
+                npages = draw(st.sampled_from([1, 1, 2, 3, 5] if not v2_working else [1, 2, 2, 3]))
                 pages, left = [], total
                 for pi in range(npages):
                     pn = None if pi == npages - 1 else draw(st.integers(0, max(0, left)))
